@@ -361,7 +361,38 @@ def rule4_signed(ctx, fl):
                 pos_pol = ic.pred in ('sgt', 'sge')
                 ctx.ob('C15.4', name + ': parsed value returned only if positive', f.on_edge(ic.id, pos_pol, anchor),
                        'the environment value is used only on the > 0 edge', loc=anchor.loc)
-    ctx.floor('C15.4', 20)
+    # the fallback of the worker count is the number of CPUs as the operating system reports it (not a variable that is only
+    # filled in while the library initialises: defaults can be materialised before that)
+    f = ctx.need_fn(v, 'myth_globalattr_default_num_workers')
+    cpus = call_sites(f, 'myth_get_n_available_cpus')
+    fb = [val for val, anchor in ret_cases(f, maxdepth=1) if isinstance(val, str)]
+    srcs = set(k for val in fb for k in f.sources(val))
+    ctx.ob('C15.4', 'myth_globalattr_default_num_workers: falls back to the CPU count', len(cpus) == 1 and cpus[0].id in srcs and
+           all(k in f.insts and f.insts[k].op == 'call' and (f.insts[k].callee in PARSERS or f.insts[k].callee == 'myth_get_n_available_cpus')
+               for k in srcs), 'nw <= 0 -> myth_get_n_available_cpus()', loc=f.loc,
+           detail='value sources: ' + ', '.join(sorted((f.insts[k].callee or f.insts[k].op) if k in f.insts else str(k) for k in srcs)))
+    vb = ctx.ssa(BINDF, fl)
+    nc = ctx.need_fn(vb, 'myth_get_n_available_cpus')
+    okos = False
+    for val, anchor in ret_cases(nc, maxdepth=2):
+        if isinstance(val, str):
+            ss = [nc.insts[k] for k in nc.sources(val) if k in nc.insts]
+            okos = bool(ss) and all(x.op == 'call' and x.callee == 'sysconf' for x in ss)
+    ctx.ob('C15.4', 'myth_get_n_available_cpus asks the operating system', okos, 'sysconf(_SC_NPROCESSORS_ONLN): valid before initialisation',
+           loc=nc.loc)
+    # (re)initialisation restarts the table of usable CPUs: the counter that indexes worker_cpu[] is reset on every call
+    ga = ctx.need_fn(vb, 'myth_get_available_cpus')
+    incs = [st for st in ga.order if st.op == 'store' and isinstance(st.ops[1], dict) and st.ops[1].get('g') and
+            {k: c for k, c in lib.affine(ga, st.ops[0]).items() if c != 0}.get('', 0) == 1 and
+            any(k in ga.insts and ga.insts[k].op == 'load' and ga.insts[k].ops[0] == st.ops[1] for k in lib.affine(ga, st.ops[0]))]
+    for st in incs:
+        gname = st.ops[1]['g']
+        zs = [z for z in ga.order if z.op == 'store' and z.ops[1] == st.ops[1] and const_int(z.ops[0]) == 0 and not ga.in_loop(z)]
+        ctx.ob('C15.4', 'myth_get_available_cpus: %s restarts from 0 on every call' % gname, any(ga.dominates_f(z, st) for z in zs),
+               'the table of usable CPUs is rebuilt by every initialisation; a counter that survives myth_fini makes the table grow '
+               'past its end after enough init / fini cycles', loc=st.loc)
+    ctx.ob('C15.4', 'myth_get_available_cpus: counted table fill found', len(incs) >= 1, 'n_available_cpus++', loc=ga.loc)
+    ctx.floor('C15.4', 24)
 
 
 def rule5_getters(ctx, fl):
@@ -604,8 +635,9 @@ def run(ctx):
         vg = ctx.view('myth_if_native.c', roots=['myth_globalattr_%s_%s_body' % (a, x) for a in ('set', 'get') for x in NAMES],
                       stops=('myth_globalattr_init_body',), flavour=fl)
         lib.accessor_agreement(ctx, 'C15.10', vg, 'myth_globalattr_t', 'myth_globalattr_set_%s_body', 'myth_globalattr_get_%s_body',
-                               dict((x, [(1, x)]) for x in NAMES), null_default='g_attr')
-        ctx.floor('C15.10', 20)
+                               dict((x, [(1, x)]) for x in NAMES), null_default='g_attr',
+                               null_init=('myth_globalattr_init_body', 'myth_globalattr_t.initialized'))
+        ctx.floor('C15.10', 30)
         ctx.attempt(rule5_workers, ctx, fl)
 
 
@@ -613,6 +645,10 @@ INITC = 'src/myth_init.c'
 BIND = 'src/myth_bind_worker.c'
 INITH = 'src/myth_init_func.h'
 MUTANTS = [
+    {'name': 'usable-CPU counter not reset by re-initialisation (seed4 C15/m2)', 'expect': 'C15.4',
+     'edits': [('src/myth_bind_worker.c', "  n_available_cpus = 0;\n  if (n_specified_cpus == -1) {", "  if (n_specified_cpus == -1) {")]},
+    {'name': 'global attribute setter on NULL does not materialise the defaults first (seed4 C15/m1)', 'expect': 'C15.10',
+     'edits': [('src/myth_init_func.h', "				   size_t n_workers) {\n  if (!attr) {\n    if (!g_attr.initialized) myth_globalattr_init_body(&g_attr);\n    attr = &g_attr;", "				   size_t n_workers) {\n  if (!attr) {\n    attr = &g_attr;")]},
     {'name': 'myth_get_num_workers reports the size of the env table slot instead of the worker count', 'expect': 'C15.5',
      'edits': [('src/myth_worker_func.h', "  return g_attr.n_workers;\n}", "  return g_attr.bind_workers;\n}")]},
     {'name': 'myth_globalattr_set_n_workers writes bind_workers', 'expect': 'C15.10',
